@@ -381,9 +381,9 @@ impl NInt {
         match self {
             NInt::Small(a) => NInt::Small(a.signum()),
             NInt::Big(a) => match a.sign() {
-                Sign::Minus => NInt::Small(1),
+                Sign::Minus => NInt::Small(-1),
                 Sign::NoSign => NInt::Small(0),
-                Sign::Plus => NInt::Small(-1),
+                Sign::Plus => NInt::Small(1),
             },
         }
     }
